@@ -1,0 +1,275 @@
+//go:build verif
+// +build verif
+
+// Verification hooks (build tag "verif"): add-only exported wrappers around
+// unexported zapx internals, used by the external verification harness.
+// With the tag off this file is not compiled and the package is unchanged.
+
+package zap
+
+import (
+	"bytes"
+	"encoding/binary"
+
+	"github.com/RoaringBitmap/roaring/v2"
+	index "github.com/blevesearch/bleve_index_api"
+	segment "github.com/blevesearch/scorch_segment_api/v2"
+	"github.com/blevesearch/vellum"
+)
+
+// VerifNew builds a segment with an explicit chunk mode.
+func VerifNew(results []index.Document, chunkMode uint32) (segment.Segment, uint64, error) {
+	return (&ZapPlugin{}).newWithChunkMode(results, chunkMode)
+}
+
+// VerifMerge merges with an explicit chunk mode.
+func VerifMerge(segments []segment.Segment, drops []*roaring.Bitmap, path string,
+	chunkMode uint32, closeCh chan struct{}, s segment.StatsReporter) ([][]uint64, uint64, error) {
+	sbs := make([]*SegmentBase, len(segments))
+	for i, sg := range segments {
+		switch x := sg.(type) {
+		case *Segment:
+			sbs[i] = &x.SegmentBase
+		case *SegmentBase:
+			sbs[i] = x
+		}
+	}
+	return mergeSegmentBases(sbs, drops, path, chunkMode, closeCh, s)
+}
+
+// VerifGetChunkSize exposes getChunkSize.
+func VerifGetChunkSize(chunkMode uint32, cardinality uint64, maxDocs uint64) (uint64, error) {
+	return getChunkSize(chunkMode, cardinality, maxDocs)
+}
+
+// VerifNumUvarintBytes exposes numUvarintBytes.
+func VerifNumUvarintBytes(x uint64) int { return numUvarintBytes(x) }
+
+// VerifTotalUvarintBytes exposes totalUvarintBytes.
+func VerifTotalUvarintBytes(a, b, c, d, e uint64, more []uint64) int {
+	return totalUvarintBytes(a, b, c, d, e, more)
+}
+
+// VerifEncodeFreqHasLocs / VerifDecodeFreqHasLocs expose the freq/hasLocs codec.
+func VerifEncodeFreqHasLocs(freq uint64, hasLocs bool) uint64 {
+	return encodeFreqHasLocs(freq, hasLocs)
+}
+func VerifDecodeFreqHasLocs(v uint64) (uint64, bool) { return decodeFreqHasLocs(v) }
+
+// VerifUnder32Bits exposes under32Bits.
+func VerifUnder32Bits(x uint64) bool { return under32Bits(x) }
+
+// VerifEncodeSynonym / VerifDecodeSynonym expose the synonym code packing.
+func VerifEncodeSynonym(synonymID uint32, docID uint32) uint64 {
+	return encodeSynonym(synonymID, docID)
+}
+func VerifDecodeSynonym(code uint64) (uint32, uint32) { return decodeSynonym(code) }
+
+// VerifEndOffsets exposes modifyLengthsToEndOffsets on a copy.
+func VerifEndOffsets(lengths []uint64) []uint64 {
+	cp := append([]uint64(nil), lengths...)
+	return modifyLengthsToEndOffsets(cp)
+}
+
+// VerifReadChunkBoundary exposes readChunkBoundary.
+func VerifReadChunkBoundary(chunk int, offsets []uint64) (uint64, uint64) {
+	return readChunkBoundary(chunk, offsets)
+}
+
+// VerifIntCoderAdd is one Add call for VerifIntCoderEncode.
+type VerifIntCoderAdd struct {
+	DocNum uint64
+	Vals   []uint64
+}
+
+// VerifIntCoderEncode runs a chunkedIntCoder over the given adds (doc numbers
+// must be non-decreasing) and returns the bytes its Write emits.  When reuse is
+// true the coder is first used for a throw-away list and Reset, as the
+// builders do.
+func VerifIntCoderEncode(chunkSize, maxDocNum uint64, adds []VerifIntCoderAdd, reuse bool) ([]byte, error) {
+	c := newChunkedIntCoder(1024, maxDocNum)
+	if reuse {
+		c.SetChunkSize(1, maxDocNum)
+		for d := uint64(0); d <= maxDocNum && d < 8; d++ {
+			_ = c.Add(d, d+1, 300*d)
+		}
+		c.Close()
+		c.Reset()
+	}
+	c.SetChunkSize(chunkSize, maxDocNum)
+	for _, a := range adds {
+		if err := c.Add(a.DocNum, a.Vals...); err != nil {
+			return nil, err
+		}
+	}
+	c.Close()
+	var buf bytes.Buffer
+	_, err := c.Write(&buf)
+	return buf.Bytes(), err
+}
+
+// VerifIntDecodeChunk decodes chunk `chunk` of a stream produced by
+// VerifIntCoderEncode (stored at offset 1 of a buffer whose byte 0 is padding,
+// because offset 0 means "not encoded") and returns every uvarint in it.
+func VerifIntDecodeChunk(stream []byte, chunk int) ([]uint64, error) {
+	mem := append([]byte{0}, stream...)
+	mem = append(mem, make([]byte, binary.MaxVarintLen64)...)
+	d := newChunkedIntDecoder(mem, 1, nil)
+	if err := d.loadChunk(chunk); err != nil {
+		return nil, err
+	}
+	var out []uint64
+	for d.Len() > 0 {
+		v, err := d.readUvarint()
+		if err != nil {
+			return out, err
+		}
+		out = append(out, v)
+	}
+	return out, nil
+}
+
+// VerifIntDecodeNumChunks returns the number of chunks in the stream header.
+func VerifIntDecodeNumChunks(stream []byte) int {
+	mem := append([]byte{0}, stream...)
+	mem = append(mem, make([]byte, binary.MaxVarintLen64)...)
+	d := newChunkedIntDecoder(mem, 1, nil)
+	return len(d.chunkOffsets)
+}
+
+// VerifMemUvarint reads uvarints from buf with memUvarintReader: for each op
+// 'r' = ReadUvarint (value appended), 's' = SkipUvarint (appends the reader
+// position).
+func VerifMemUvarint(buf []byte, ops string) (vals []uint64, pos []int, errs []bool) {
+	r := newMemUvarintReader(buf)
+	for _, op := range ops {
+		switch op {
+		case 'r':
+			v, err := r.ReadUvarint()
+			vals = append(vals, v)
+			errs = append(errs, err != nil)
+		case 's':
+			r.SkipUvarint()
+			vals = append(vals, 0)
+			errs = append(errs, false)
+		}
+		pos = append(pos, r.C)
+	}
+	return vals, pos, errs
+}
+
+// VerifContentCoderEncode runs a chunkedContentCoder (doc values writer) and
+// returns the bytes it emits (data followed by the trailer).
+func VerifContentCoderEncode(chunkSize, maxDocNum uint64, docNums []uint64, vals [][]byte, progressive bool) ([]byte, error) {
+	var buf bytes.Buffer
+	c := newChunkedContentCoder(chunkSize, maxDocNum, &buf, progressive)
+	for i, d := range docNums {
+		if err := c.Add(d, vals[i]); err != nil {
+			return nil, err
+		}
+	}
+	if err := c.Close(); err != nil {
+		return nil, err
+	}
+	if _, err := c.Write(); err != nil {
+		return nil, err
+	}
+	return buf.Bytes(), nil
+}
+
+type verifSliceItr struct {
+	keys [][]byte
+	vals []uint64
+	i    int
+}
+
+func (s *verifSliceItr) Current() ([]byte, uint64) {
+	if s.i < len(s.keys) {
+		return s.keys[s.i], s.vals[s.i]
+	}
+	return nil, 0
+}
+func (s *verifSliceItr) Next() error {
+	s.i++
+	if s.i >= len(s.keys) {
+		return vellum.ErrIteratorDone
+	}
+	return nil
+}
+func (s *verifSliceItr) Seek(key []byte) error { return nil }
+func (s *verifSliceItr) Reset(f *vellum.FST, startKeyInclusive, endKeyExclusive []byte, aut vellum.Automaton) error {
+	return nil
+}
+func (s *verifSliceItr) Close() error          { return nil }
+func (s *verifSliceItr) Exists() (bool, error) { return s.i < len(s.keys), nil }
+
+// VerifEnumTriple is one step of the enumerator.
+type VerifEnumTriple struct {
+	Key []byte
+	Idx int
+	Val uint64
+}
+
+// VerifEnumerate runs the k-way enumerator over in-memory iterators (each a
+// sorted duplicate-free key list with values) and returns every (key, iterator
+// index, value) triple it yields.
+func VerifEnumerate(keys [][][]byte, vals [][]uint64) ([]VerifEnumTriple, error) {
+	itrs := make([]vellum.Iterator, len(keys))
+	for i := range keys {
+		itrs[i] = &verifSliceItr{keys: keys[i], vals: vals[i]}
+	}
+	var out []VerifEnumTriple
+	e, err := newEnumerator(itrs)
+	for err == nil {
+		k, i, v := e.Current()
+		out = append(out, VerifEnumTriple{Key: append([]byte(nil), k...), Idx: i, Val: v})
+		err = e.Next()
+	}
+	if err != vellum.ErrIteratorDone {
+		return out, err
+	}
+	return out, nil
+}
+
+// VerifVisitCtxPoolDoubled reports whether two consecutive Gets on the
+// stored-field visit context pool return the same object (i.e. the object is
+// in the pool twice).  Both objects are handed back exactly once.
+func VerifVisitCtxPoolDoubled() bool {
+	a := visitDocumentCtxPool.Get().(*visitDocumentCtx)
+	b := visitDocumentCtxPool.Get().(*visitDocumentCtx)
+	same := a == b
+	visitDocumentCtxPool.Put(a)
+	if !same {
+		visitDocumentCtxPool.Put(b)
+	}
+	return same
+}
+
+// VerifInterimPoolPeek takes a builder from the pool, reports whether it has
+// been used before (non-nil opaque map) and puts it back.
+func VerifInterimPoolPeek() bool {
+	s := interimPool.Get().(*interim)
+	used := s.opaque != nil
+	interimPool.Put(s)
+	return used
+}
+
+// VerifSegmentMem returns the in-memory image (without footer) and the header
+// values of a segment base.
+func VerifSegmentMem(sg segment.Segment) (mem []byte, crc uint32, chunkMode uint32, numDocs, storedIndexOffset, sectionsIndexOffset uint64) {
+	var sb *SegmentBase
+	switch x := sg.(type) {
+	case *Segment:
+		sb = &x.SegmentBase
+	case *SegmentBase:
+		sb = x
+	}
+	return sb.mem, sb.memCRC, sb.chunkMode, sb.numDocs, sb.storedIndexOffset, sb.sectionsIndexOffset
+}
+
+// VerifRefs returns the reference count of an opened segment.
+func VerifRefs(s *Segment) int64 {
+	s.m.Lock()
+	defer s.m.Unlock()
+	return s.refs
+}
